@@ -159,7 +159,7 @@ def logging_factory(loop, coro, **kw):
 # ------------------------------------------------------------------ running one script on the implementation
 class Scenario:
     """cfg: dict(kind, msg_beh {n: beh}, default_beh, cb_beh, has_cb, mode: 'pull'|'callback')
-    beh: 'ret' | ('await', k) | 'close' | 'iclose' | 'raise' | 'accept' | 'reject'"""
+    beh: 'ret' | ('await', k) | ('sleep', k) | 'close' | 'iclose' | 'raise' | 'accept' | 'reject'"""
 
     def __init__(self, cfg, script, seed=0, settle=0.05, hb=(0.004, 0.004)):
         self.cfg = cfg
@@ -179,6 +179,25 @@ class Scenario:
         if isinstance(beh, (tuple, list)) and beh[0] == 'await':
             for _ in range(beh[1] + 1):
                 await asyncio.sleep(0)
+        elif isinstance(beh, (tuple, list)) and beh[0] == 'sleep':
+            # awaits k+1 *timers* of 0.7 heartbeat intervals each (the model's `await k`: it does not distinguish a turn from a timer);
+            # a callback that outlasts one or several heartbeat intervals while monitors, reader and peers go on
+            for _ in range(beh[1] + 1):
+                await asyncio.sleep(self.hb[1] * 0.7)
+        elif isinstance(beh, (tuple, list)) and beh[0] == 'sleep_close':
+            # (not modelled: extended scenarios, oracle only) work for k+1 timers, then close from inside the callback
+            for _ in range(beh[1] + 1):
+                await asyncio.sleep(self.hb[1] * 0.7)
+            await sess.close()
+        elif isinstance(beh, (tuple, list)) and beh[0] == 'cleanup':
+            # (not modelled) a handler that is busy for a long time and, when cancelled, needs `d` seconds to clean up and then
+            # sends a last message before it lets the cancellation through
+            try:
+                await asyncio.sleep(self.hb[1] * 60)
+            except asyncio.CancelledError:
+                await asyncio.sleep(beh[1])
+                self.rec.obs.append(['cleanupDone'])
+                raise
         elif beh == 'close':
             await sess.close()
         elif beh == 'iclose':
@@ -321,6 +340,31 @@ class Scenario:
                     ext('send', lambda: s.send_debug('x'))
                 elif k in ('recv', 'login', 'recvnw') and any(not t.done() for t in receivers):
                     continue      # one receive at a time (two concurrent receives are API misuse, outside the model)
+                elif k == 'startdisp':
+                    # (not modelled) the public start_dispatching() at an arbitrary moment, also on a closed session
+                    def sd():
+                        try:
+                            s.start_dispatching()
+                        except Exception as e:   # noqa — StateError when a dispatcher is already running: documented behaviour
+                            rec.obs.append(['startdisp-raised', err_name(e)])
+                    ext('startdisp', sd)
+                elif k == 'paused_recv':
+                    # (not modelled) a consumer that pauses the dispatcher and pulls one message itself
+                    u = item[1]
+
+                    async def paused(u=u):
+                        try:
+                            async with s._msg_queue.pause_dispatching():
+                                m = await s.receive_msg()
+                                r = ['msg', self.codec.number(m)]
+                        except asyncio.CancelledError:
+                            r = 'cancelled'
+                        except Exception as e:   # noqa
+                            r = err_name(e)
+                        rec.obs.append(['ret', u, r])
+                    t = asyncio.get_running_loop().create_task(paused(), name=f'U{u}')
+                    t.first_ev = ['paused_recv', u]
+                    users[u] = t
                 elif k == 'recvnw':
                     u = item[1]
 
